@@ -3,7 +3,9 @@
     src/Factored/Utils/FactoredMatrix.cpp      (getValue, getValue with weights, operator*=)
     src/Factored/Utils/FactoredVectorOps.cpp   (dot/plus/minus, *Subset, plusEqual/minusEqual)
     src/Factored/Utils/FactoredMatrix2DOps.cpp (plusEqualSubset, plusEqual)
-    src/Factored/Utils/BayesianNetwork.cpp     (DDNGraph::push/getId, DDN::getTransitionProbability, backProject)
+    src/Factored/Utils/BayesianNetwork.cpp     (DDNGraph::push/getId/getIds, DDN::getTransitionProbability, backProject)
+    src/Factored/MDP/Algorithms/JointActionLearner.cpp + src/MDP/Algorithms/QLearning.cpp (stepUpdateQ)
+    src/Factored/MDP/Algorithms/CooperativeQLearning.cpp (the entry update of a single basis only)
   Core Lean only.  `double` is read as exact `Rat`.  Vectors are `List Rat` read with `getD · 0`
   (an out-of-range read is UB in C++ and excluded by the well-formedness hypotheses of the theorems).
 -/
